@@ -75,7 +75,7 @@ fn run(root: PathBuf, out_dir: PathBuf, overrides: HashMap<String, PathBuf>) -> 
     }
     let mut world = World {
         root, overrides, files: HashMap::new(), aliases: HashMap::new(), structs: HashMap::new(), enums: HashMap::new(),
-        consts: HashMap::new(), fns: HashMap::new(), opaque_types: targets::OPAQUE_TYPES.iter().map(|s| s.to_string()).collect(),
+        consts: HashMap::new(), fns: HashMap::new(), borrows: HashMap::new(), places: HashMap::new(), opaque_types: targets::OPAQUE_TYPES.iter().map(|s| s.to_string()).collect(),
     };
     // type aliases
     for rel in targets::ALIAS_FILES {
@@ -302,7 +302,8 @@ fn new_tr<'w>(world: &'w World, t: &'w Target, lean_fn: String) -> FnTr<'w> {
         needs_fuel: false, fuel_var: "fuel".to_string(), value_ty: vec![], deps: HashSet::new(), local_names: HashSet::new(), dup_count: 0,
         rust_params: vec![], self_struct, use_leafs: leafs, use_glob: glob, temp_counter: 0, self_mutated: vec![], poisoned: vec![],
         subst: HashMap::new(), struct_subst: HashMap::new(), pending: vec![], effect_allowed: None,
-        bits: matches!(t.what, What::Fn { bits: true, .. } | What::ConstB),
+        bits: matches!(t.what, What::Fn { bits: true, .. } | What::ConstB | What::PlaceFn),
+        inout: vec![], writebacks: vec![], last_inout: vec![], in_call_stmt: false,
     }
 }
 
@@ -390,9 +391,58 @@ fn translate_target(world: &mut World, t: &'static Target) -> Res<(String, HashS
                 } else {
                     format!("/-- `const {}: {} = {}` ({}:{}); `none` would be a compile-time overflow -/\ndef {} : Option {} := {}", t.name, rty.rust(), src, t.file, line, lean, rty.lean_atom(), x.as_option_term())
                 };
-                (text, ConstInfo { lean: lean.clone(), module: t.module.to_string(), ty: rty, pure: x.pure }, tr.deps)
+                (text, ConstInfo { lean: lean.clone(), module: t.module.to_string(), file: t.file.to_string(), ty: rty, pure: x.pure }, tr.deps)
             };
             world.consts.insert((t.container.ns().map(|s| s.to_string()), t.name.to_string()), info);
+            Ok((text, deps))
+        }
+        What::MutBorrow => {
+            let mut hits = find_items(world, t);
+            if hits.len() != 1 { return Err(format!("{}: expected exactly one fn `{}` in {}, found {}", path, t.name, t.container.describe(), hits.len())); }
+            let (sig, block) = match hits.pop().unwrap() { Found::Fn(attrs, s, b, _) => { check_attrs(&path, &format!("fn {}", t.name), &attrs)?; check_body_attrs(&path, &format!("fn {}", t.name), &b)?; (s, b) } _ => return Err(format!("{}: `{}` is not a fn", path, t.name)) };
+            let bad = |m: &str| format!("{}:{}: fn {}: not of the form `if COND {{ (&mut self.a, &mut self.b) }} else {{ (&mut self.b, &mut self.a) }}` ({})", path, sig.span().start().line, t.name, m);
+            let mut_self = sig.inputs.len() == 1 && matches!(sig.inputs.first(), Some(syn::FnArg::Receiver(r)) if r.reference.is_some() && r.mutability.is_some());
+            if !mut_self { return Err(bad("the only parameter must be `&mut self`")); }
+            let e = match block.stmts.as_slice() { [syn::Stmt::Expr(e, None)] => e, _ => return Err(bad("the body must be one expression")) };
+            let i = match e { syn::Expr::If(i) => i, _ => return Err(bad("not an `if`")) };
+            fn fields_of(b: &syn::Block) -> Option<Vec<String>> {
+                let e = match b.stmts.as_slice() { [syn::Stmt::Expr(e, None)] => e, _ => return None };
+                let t = match e { syn::Expr::Tuple(t) => t, _ => return None };
+                let mut out = vec![];
+                for el in &t.elems {
+                    match el { syn::Expr::Reference(r) if r.mutability.is_some() => out.push(crate::stmt::self_field(&r.expr)?), _ => return None }
+                }
+                Some(out)
+            }
+            let then_fields = fields_of(&i.then_branch).ok_or_else(|| bad("then branch"))?;
+            let else_fields = match &i.else_branch { Some((_, eb)) => match &**eb { syn::Expr::Block(b) => fields_of(&b.block).ok_or_else(|| bad("else branch"))?, _ => return Err(bad("else branch")) }, None => return Err(bad("no else branch")) };
+            let mut a = then_fields.clone(); a.sort();
+            let mut b2 = else_fields.clone(); b2.sort();
+            let distinct = a.windows(2).all(|w| w[0] != w[1]);
+            if a != b2 || !distinct || then_fields.is_empty() { return Err(bad("both branches must borrow the same, pairwise distinct, fields")); }
+            if matches!(&*i.cond, syn::Expr::Let(_)) { return Err(bad("`if let`")); }
+            world.borrows.insert((t.container.ns().map(|s| s.to_string()), t.name.to_string()), BorrowInfo { cond: (*i.cond).clone(), then_fields, else_fields });
+            Ok((String::new(), HashSet::new()))
+        }
+        What::PlaceFn => {
+            let mut hits = find_items(world, t);
+            if hits.len() != 1 { return Err(format!("{}: expected exactly one fn `{}` in {}, found {}", path, t.name, t.container.describe(), hits.len())); }
+            let (sig, block, ictx) = match hits.pop().unwrap() { Found::Fn(attrs, s, b, c) => { check_attrs(&path, &format!("fn {}", t.name), &attrs)?; check_body_attrs(&path, &format!("fn {}", t.name), &b)?; (s, b, c) } _ => return Err(format!("{}: `{}` is not a fn", path, t.name)) };
+            let bad = |m: &str| format!("{}:{}: fn {}: not of the form `fn m(&mut self, ..) -> &mut T {{ &mut self.field[INDEX] }}` ({})", path, sig.span().start().line, t.name, m);
+            let mut_self = matches!(sig.inputs.first(), Some(syn::FnArg::Receiver(r)) if r.reference.is_some() && r.mutability.is_some());
+            if !mut_self { return Err(bad("no `&mut self`")); }
+            match &sig.output { syn::ReturnType::Type(_, ty) => match &**ty { syn::Type::Reference(r) if r.mutability.is_some() => {} _ => return Err(bad("result is not `&mut T`")) }, _ => return Err(bad("no result")) }
+            let e = match block.stmts.as_slice() { [syn::Stmt::Expr(e, None)] => e, _ => return Err(bad("the body must be one expression")) };
+            let ix = match e { syn::Expr::Reference(r) if r.mutability.is_some() => match &*r.expr { syn::Expr::Index(ix) => ix, _ => return Err(bad("not an indexed place")) }, _ => return Err(bad("not `&mut ..`")) };
+            let field = crate::stmt::self_field(&ix.expr).ok_or_else(|| bad("the indexed value is not a field of `self`"))?;
+            // the index as a function of the remaining parameters: `fn m_index(args) -> usize { INDEX }`
+            let mut isig = sig.clone();
+            isig.inputs = sig.inputs.iter().skip(1).cloned().collect();
+            isig.output = syn::parse_quote!(-> usize);
+            let index = &ix.index;
+            let iblock: syn::Block = syn::parse_quote!({ #index });
+            let (text, info, deps) = translate_fn(world, t, &isig, &iblock, &ictx)?;
+            world.places.insert((t.container.ns().map(|s| s.to_string()), t.name.to_string()), PlaceInfo { field, index_fn: info });
             Ok((text, deps))
         }
         What::Fn { .. } | What::ClosureFn { .. } => {
@@ -429,10 +479,10 @@ fn find_closure(tr: &FnTr, block: &syn::Block, method: &str) -> Res<syn::ExprClo
 
 /// fields of `self` that a `&mut self` function modifies (`self.f = ..`, `self.f op= ..`, `self.f[..] = ..`,
 /// `self.f.resize(..)`, `self.f.insert(..)`, ..), in order of first occurrence
-fn mutated_self_fields(block: &syn::Block) -> Vec<String> {
+fn mutated_self_fields(block: &syn::Block, borrows: &[(String, Vec<String>)]) -> Vec<String> {
     use syn::visit::Visit;
-    struct V { out: Vec<String> }
-    impl<'ast> Visit<'ast> for V {
+    struct V<'a> { out: Vec<String>, borrows: &'a [(String, Vec<String>)] }
+    impl<'a, 'ast> Visit<'ast> for V<'a> {
         fn visit_expr_assign(&mut self, a: &'ast syn::ExprAssign) {
             if let Some(f) = crate::stmt::mutated_self_field_of_target(&a.left) { if !self.out.contains(&f) { self.out.push(f); } }
             syn::visit::visit_expr_assign(self, a);
@@ -447,16 +497,22 @@ fn mutated_self_fields(block: &syn::Block) -> Vec<String> {
             if crate::stmt::MUTATING_METHODS.contains(&m.method.to_string().as_str()) {
                 if let Some(f) = crate::stmt::self_field(&m.receiver) { if !self.out.contains(&f) { self.out.push(f); } }
             }
+            // `self.get_active_and_passive_mut()`: the fields it borrows mutably
+            if crate::expr::path_ident(&m.receiver).as_deref() == Some("self") {
+                if let Some((_, fs)) = self.borrows.iter().find(|(n, _)| *n == m.method.to_string()) {
+                    for f in fs { if !self.out.contains(f) { self.out.push(f.clone()); } }
+                }
+            }
             syn::visit::visit_expr_method_call(self, m);
         }
     }
-    let mut v = V { out: vec![] };
+    let mut v = V { out: vec![], borrows };
     v.visit_block(block);
     v.out
 }
 
 fn translate_fn(world: &World, t: &'static Target, sig: &syn::Signature, block: &syn::Block, ictx: &ImplCtx) -> Res<(String, FnInfo, HashSet<String>)> {
-    let mut lean = match &t.what { What::ClosureFn { suffix, .. } => format!("{}_{}", lean_name(t), suffix), _ => lean_name(t) };
+    let mut lean = match &t.what { What::ClosureFn { suffix, .. } => format!("{}_{}", lean_name(t), suffix), What::PlaceFn => format!("{}_index", lean_name(t)), _ => lean_name(t) };
     // a method named like a field of its (regenerated) struct would clash with the projection of the Lean structure
     if let Some(si) = t.container.ns().and_then(|n| world.structs.get(n)) {
         if si.lean_module.is_some() && si.fields.iter().any(|(f, _)| f == t.name) { lean.push_str("_fn"); }
@@ -495,6 +551,7 @@ fn translate_fn(world: &World, t: &'static Target, sig: &syn::Signature, block: 
     }
     // parameters
     let mut mut_self = false;
+    let mut inout_idx: Vec<usize> = vec![];
     for (i, a) in sig.inputs.iter().enumerate() {
         match a {
             syn::FnArg::Receiver(r) => {
@@ -512,8 +569,14 @@ fn translate_fn(world: &World, t: &'static Target, sig: &syn::Signature, block: 
                 };
                 // a parameter of an unsupported type is an error only if the body refers to it
                 let mut bad: Option<String> = None;
-                if let syn::Type::Reference(r) = &*pt.ty { if r.mutability.is_some() { bad = Some("`&mut` parameter".into()); } }
                 let ty = match tr.resolve_type(&pt.ty) { Ok(t) => t, Err(m) => { bad = Some(m); RTy::Unit } };
+                let mut is_inout = false;
+                if let syn::Type::Reference(r) = &*pt.ty {
+                    if r.mutability.is_some() {
+                        // `&mut S` for a regenerated struct: the parameter is a mutable variable, its final value is part of the result
+                        if bad.is_none() && matches!(ty, RTy::Struct(_)) && matches!(t.what, What::Fn { .. }) { is_inout = true; } else { bad = Some("`&mut` parameter".into()); }
+                    }
+                }
                 if bad.is_none() && matches!(ty, RTy::VecFn(_) | RTy::VecList(_) | RTy::Unit) { bad = Some(tr.err(a, "unsupported parameter type")); }
                 if let Some(m) = bad {
                     tr.rust_params.push((name.clone(), RTy::Unit));
@@ -524,7 +587,8 @@ fn translate_fn(world: &World, t: &'static Target, sig: &syn::Signature, block: 
                 match &ty {
                     RTy::Flat(_) => tr.env.push(Var { rust: name.clone(), lean: name.clone(), ty, depth: 1, mutable: false, param: Some(i), declared: true }),
                     _ => {
-                        let l = tr.declare(a, &name, ty.clone(), mutable, Some(i))?;
+                        let l = tr.declare(a, &name, ty.clone(), mutable || is_inout, Some(i))?;
+                        if is_inout { tr.inout.push(l.clone()); inout_idx.push(tr.rust_params.len() - 1); }
                         tr.lparams.push(LeanParam { name: l, ty, origin: Origin::Param(i), key: (i, 0, 0) });
                     }
                 }
@@ -533,7 +597,9 @@ fn translate_fn(world: &World, t: &'static Target, sig: &syn::Signature, block: 
     }
     if mut_self && matches!(t.what, What::Fn { .. }) {
         let sname = tr.self_struct.clone().ok_or_else(|| tr.err(sig, "`&mut self` of a type that is not a registered struct"))?;
-        let mut fields = mutated_self_fields(block);
+        let ns = t.container.ns().map(|x| x.to_string());
+        let borrows: Vec<(String, Vec<String>)> = world.borrows.iter().filter(|((n, _), _)| *n == ns).map(|((_, m), b)| (m.clone(), b.then_fields.clone())).collect();
+        let mut fields = mutated_self_fields(block, &borrows);
         if fields.is_empty() { return Err(tr.err(sig, "`&mut self` function in which no supported mutation of a field was found")); }
         // declaration order (independent of the order of the statements)
         let pos = |f: &String| world.structs[&sname].fields.iter().position(|(n, _)| n == f).unwrap_or(usize::MAX);
@@ -602,10 +668,11 @@ fn translate_fn(world: &World, t: &'static Target, sig: &syn::Signature, block: 
     for t in &ctor_fields { collect_opaque(t, &mut tyvars); }
     if !tr.pending.is_empty() { return Err(tr.err(sig, "internal: pending statements left")); }
 
-    let ret_lean = if !ctor_fields.is_empty() { RTy::Tuple(ctor_fields.clone()).lean_atom() } else if tr.self_mutated.is_empty() { ret.lean_atom() } else {
+    let ret_lean = if !ctor_fields.is_empty() { RTy::Tuple(ctor_fields.clone()).lean_atom() } else if tr.self_mutated.is_empty() && tr.inout.is_empty() { ret.lean_atom() } else {
         let mut parts = vec![];
         if ret != RTy::Unit { parts.push(ret.lean_atom()); }
         for f in &tr.self_mutated { parts.push(tr.lparams.iter().find(|p| p.name == *f).unwrap().ty.lean_atom()); }
+        for f in &tr.inout { parts.push(tr.lparams.iter().find(|p| p.name == *f).unwrap().ty.lean_atom()); }
         if parts.len() == 1 { parts[0].clone() } else { format!("({})", parts.join(" × ")) }
     };
 
@@ -641,6 +708,9 @@ fn translate_fn(world: &World, t: &'static Target, sig: &syn::Signature, block: 
     if !tr.self_mutated.is_empty() {
         s.push_str(&format!("Result: {}the new value of `self.{}`.\n", if ret != RTy::Unit { "the returned value and " } else { "" }, tr.self_mutated.join("`, `self.")));
     }
+    if !tr.inout.is_empty() {
+        s.push_str(&format!("Result{}: the new value of the `&mut` parameter(s) `{}`.\n", if tr.self_mutated.is_empty() { "" } else { " (continued)" }, tr.inout.join("`, `")));
+    }
     s.push_str("`none` = panic (or out of fuel). -/\n");
     let mut binders = String::new();
     for v in &tyvars { binders.push_str(&format!(" {{{} : Type}}", v)); }
@@ -648,6 +718,6 @@ fn translate_fn(world: &World, t: &'static Target, sig: &syn::Signature, block: 
     s.push_str(&format!("def {}{} : Option {} := do\n", lean, binders, ret_lean));
     s.push_str(&indent(lines, 2).join("\n"));
 
-    let info = FnInfo { lean: lean.clone(), module: t.module.to_string(), params, ret, rust_params: tr.rust_params.iter().map(|p| p.0.clone()).collect() };
+    let info = FnInfo { lean: lean.clone(), module: t.module.to_string(), params, ret, rust_params: tr.rust_params.iter().map(|p| p.0.clone()).collect(), inout: inout_idx };
     Ok((s, info, tr.deps))
 }
